@@ -32,7 +32,7 @@ impl<'a> Decode<'a> for MessageHeader<'a> {
             &&& h.cookie@ == buffer@.subrange(4, 8)
             &&& h.bits == 0
         },
-//@before "let bits: u8"
+//@after "let msg_type = BigEndian::read_u16("
     assert((msg_type >> 14u16) <= 3u16) by (bit_vector);
     assert(((msg_type >> 14u16) == 0u16) <==> msg_type < 16384u16) by (bit_vector);
     assert(msg_type & 0x3FFFu16 == msg_type % 16384u16) by (bit_vector);
